@@ -76,12 +76,50 @@ mod c15 {
                 pmap(&m)
             }
             5 => nested(&text(arg.at(0)), &text(arg.at(1))),
+            6 => flat(&text(arg)),
             _ => Lst(vec![]),
         }
     }
 
     thread_local! {
         static SEEN: std::cell::RefCell<Vec<Sexp>> = const { std::cell::RefCell::new(Vec::new()) };
+    }
+
+    /// Server-render a real flat router (`/u/:id`) for the request path `/u/<raw>` and report
+    /// the params map the matched component reads through `use_params_map()`.
+    fn flat(raw: &str) -> Sexp {
+        use leptos::prelude::*;
+        use leptos_router::{
+            components::{FlatRoutes, Route, Router},
+            hooks::use_params_map,
+            ParamSegment, StaticSegment,
+        };
+        #[component]
+        fn User() -> impl IntoView {
+            let p = use_params_map();
+            SEEN.with(|s| s.borrow_mut().push(pmap(&p.get_untracked())));
+            "user"
+        }
+        let _ = any_spawner::Executor::init_futures_executor();
+        SEEN.with(|s| s.borrow_mut().clear());
+        let owner = Owner::new();
+        let html = owner.with(|| {
+            provide_context(RequestUrl::new(&format!("/u/{raw}")));
+            view! {
+                <Router>
+                    <FlatRoutes fallback=|| "notfound">
+                        <Route path=(StaticSegment("u"), ParamSegment("id")) view=User/>
+                    </FlatRoutes>
+                </Router>
+            }
+            .to_html()
+        });
+        drop(owner);
+        let seen = SEEN.with(|s| s.borrow().clone());
+        match seen.len() {
+            1 => seen[0].clone(),
+            n => Lst(vec![Num(-3), Num(n as i64), Sexp::from_str(&html)]),
+        }
     }
 
     /// Server-render a real nested router (`/:a` with child `:b`) for the request path
